@@ -1946,3 +1946,236 @@ class ReconcileCompatibleKeySource(MapKernel):
 
 
 KERNELS.append(ReconcileCompatibleKeySource)
+
+
+class CreateEntries(ReconEntries):
+    def m_construct_at(self, I, a, n):
+        ctx = I.ctx
+        s = ctx.rv(a[0])
+        k = self.k
+        ctx.oblige("callee-pre.construct_at:slot-free-and-inside-the-store", z3.And(k.gg(ctx, "enull")[s], s < k.gg(ctx, "ecap")),
+                   kind="callee-pre")
+        ctx.write(Loc((k.g.oid, "enull")), z3.Store(k.gg(ctx, "enull"), s, False))
+        ctx.write(Loc((k.g.oid, "hasg")), z3.Store(k.gg(ctx, "hasg"), s, False))
+        ctx.write(Loc((k.g.oid, "constructed_key")), getattr(ctx.rv(a[1]), "slot", z3.IntVal(-3)))
+        return CreateEntry(k, s)
+
+    def m_destroy_at(self, I, a, n):
+        ctx = I.ctx
+        s = ctx.rv(a[0])
+        ctx.write(Loc((self.k.g.oid, "enull")), z3.Store(self.k.gg(ctx, "enull"), s, True))
+        ctx.write(Loc((self.k.g.oid, "destroyed")), self.k.gg(ctx, "destroyed") + 1)
+        return VOID
+
+    def m_graph_memory(self, I, a, n):
+        return Obj("memory", "graph_memory")
+
+    def m_entry_at(self, I, a, n):
+        s = I.ctx.rv(a[0])
+        return Ptr(CreateEntry(self.k, s), self.k.gg(I.ctx, "enull")[s])
+
+
+class CreateEntry(Obj):
+    cls = "MapKeyEntry"
+
+    def __init__(self, k, slot):
+        Obj.__init__(self, name="entry")
+        self.k, self.slot = k, slot
+
+    def member(self, ctx, name, node):
+        k, s = self.k, self.slot
+        if name == "graph":
+            return CreateGraph(k, s)
+        if name == "key":
+            return KeyOf(k, s)
+        if name == "key_source":
+            ks = Obj("MappedKeySource", "key_source")
+            ks.m_bind = lambda I_, a, n: VOID
+            ks.m_bound = lambda I_, a, n: I_.ctx.fresh("key_source_bound", "bool")
+            ks.m_view = lambda I_, a, n: Wild(name="key_source_view")
+            return ks
+        if name == "schedule_context":
+            return Loc((k.g.oid, "sched_ctx"))
+        raise Gap("entry member %s" % name)
+
+
+class CreateGraph(Obj):
+    cls = "GraphValue(child)"
+
+    def __init__(self, k, slot):
+        Obj.__init__(self, name="child_graph")
+        self.k, self.slot = k, slot
+
+    def m_has_value(self, I, a, n):
+        return self.k.gg(I.ctx, "hasg")[self.slot]
+
+    def op(self, I, op, rest, n, a0):
+        if op == "=":       # entry.graph = make_nested_graph(...)
+            ctx = I.ctx
+            ctx.write(Loc((self.k.g.oid, "hasg")), z3.Store(self.k.gg(ctx, "hasg"), self.slot, True))
+            ctx.write(Loc((self.k.g.oid, "made")), self.k.gg(ctx, "made") + 1)
+            return self
+        return NotImplemented
+
+    def m_view(self, I, a, n):
+        k, s = self.k, self.slot
+        o = Obj("GraphView", "child")
+        o.m_started = lambda I_, a_, n_: k.gg(I_.ctx, "started")[s]
+
+        def start(I_, a_, n_):
+            c = I_.ctx
+            c.oblige("callee-pre.child.start:constructed,not-started,at-the-cycle-time", z3.And(
+                k.gg(c, "hasg")[s], z3.Not(k.gg(c, "started")[s]), c.rv(a_[0]) == k.T), kind="callee-pre")
+            c.write(Loc((k.g.oid, "starts")), k.gg(c, "starts") + 1)
+            if c.choose(2, "child.start outcome") == 1:
+                I_.throw_from_callee("child.start")
+            c.write(Loc((k.g.oid, "started")), z3.Store(k.gg(c, "started"), s, True))
+            return VOID
+        o.m_start = start
+
+        def stop(I_, a_, n_):
+            c = I_.ctx
+            c.write(Loc((k.g.oid, "started")), z3.Store(k.gg(c, "started"), s, False))
+            c.write(Loc((k.g.oid, "rollback_stops")), k.gg(c, "rollback_stops") + 1)
+            return VOID
+        o.m_stop = stop
+
+        def observer(I_, a_, n_):
+            c = I_.ctx
+            tgt = c.rv(a_[1])
+            c.write(Loc((k.g.oid, "observer_on_this_entry")), z3.BoolVal(isinstance(tgt, Ptr) and isinstance(tgt.target, Loc)
+                                                                       and tgt.target.key == (k.g.oid, "sched_ctx")))
+            return VOID
+        o.m_set_child_schedule_observer = observer
+        return o
+
+
+class SchedCtxVal(Obj):
+    cls = "MapChildScheduleContext"
+
+    def __init__(self, storage_ok, slot):
+        Obj.__init__(self, name="schedule_context_value")
+        self.storage_ok, self.slot = storage_ok, slot
+
+
+class CreateEntryAtSlot(MapKernel):
+    name = "map_node.cpp:create_entry_at_slot"
+    fn_name = "create_entry_at_slot"
+    filter = "create_entry_at_slot"
+    property_ids = ("C10", "C14")
+    title = "create_entry_at_slot: a live key's slot gets a constructed, started child wired to this map's schedule heap; a " \
+            "failure leaves nothing started"
+
+    def setup(self, I):
+        ctx = I.ctx
+        self.base(I)
+        g = self.g
+        self.slot = z3.Int("slot")
+        self.ecap0 = z3.Int("entries_slot_capacity0")
+        self.enull0, self.hasg0 = z3.Array("entry_null0", I_, B_), z3.Array("entry_has_graph0", I_, B_)
+        ctx.assume(z3.And(self.slot >= 0, self.ecap0 >= 0))
+        ctx.assume(z3.ForAll([qs], z3.And(z3.Implies(z3.Not(self.enull0[qs]), z3.And(qs >= 0, qs < self.ecap0)),
+                                          z3.Implies(self.started0[qs], z3.And(z3.Not(self.enull0[qs]), self.hasg0[qs])))))
+        for nm, v in (("ecap", self.ecap0), ("enull", self.enull0), ("hasg", self.hasg0), ("made", z3.IntVal(0)),
+                      ("starts", z3.IntVal(0)), ("rollback_stops", z3.IntVal(0)), ("destroyed", z3.IntVal(0)),
+                      ("constructed_key", z3.IntVal(-9)), ("observer_on_this_entry", z3.BoolVal(False)),
+                      ("sampled", z3.IntVal(0)), ("sched_ctx", SchedCtxVal(z3.BoolVal(False), z3.IntVal(-9)))):
+            ctx.store[(g.oid, nm)] = v
+        ctx.store[(self.st.oid, "entries")] = CreateEntries(self)
+        cx = Obj("MapNodeContext", "context")
+        spec = Obj("MapNodeSpec", "spec")
+        child = Obj("child_spec", "child_spec")
+        gbuild = Obj("GraphBuilder", "graph_builder")
+        gbuild.m_make_nested_graph = lambda I_, a, n: Obj("GraphValue", "new_child_graph")
+        ctx.store[(child.oid, "graph_builder")] = gbuild
+        ctx.store[(child.oid, "output_binding")] = Wild(name="output_binding")
+        ctx.store[(child.oid, "input_bindings")] = Wild(name="input_bindings")
+        ctx.store[(spec.oid, "child")] = child
+        ctx.store[(spec.oid, "key_output_schema")] = Ptr(Obj("schema", "key_output_schema"), z3.Bool("key_output_schema_null"))
+        ctx.store[(spec.oid, "output_binding_mode")] = z3.Int("output_binding_mode")
+        ctx.store[(cx.oid, "spec")] = spec
+        ctx.store[(cx.oid, "access")] = Wild(name="access")
+        ctx.store[(cx.oid, "graph_layout")] = Wild(name="graph_layout")
+        self.kcap = z3.Int("keys_slot_capacity")
+        self.key_live = z3.Array("key_slot_live", I_, B_)
+        self.view.m_pointer = lambda I_, a, n: Ptr(Obj("node", "node_pointer"))
+        self.out_null = z3.Bool("output_mutation_null")
+        om = Obj("TSDDataMutationView", "output_mutation")
+        om.m_erase = lambda I_, a, n: I_.ctx.fresh("erased", "bool")
+        om.op = lambda I_, op, rest, n, a0: Wild(name="output_element")
+        return None, {"view": self.view, "context": cx, "storage": self.st, "output_mutation": Ptr(om, self.out_null),
+                      "keys_set": KeysSet(self), "slot": self.slot, "evaluation_time": self.T}
+
+    def f_graph_local_value(self, I, a, n):
+        return I.ctx.rv(a[0])
+
+    def f_max(self, I, a, n):
+        x, y = I.ctx.rv(a[0]), I.ctx.rv(a[1])
+        return z3.If(x > y, x, y)
+
+    def f_clear_entry_output_binding(self, I, a, n):
+        return VOID
+
+    def f_bind_mapped_child_inputs(self, I, a, n):
+        if I.ctx.choose(2, "bind_mapped_child_inputs outcome") == 1:
+            I.throw_from_callee("bind_mapped_child_inputs")
+        return VOID
+
+    def f_bind_mapped_child_output(self, I, a, n):
+        return VOID
+
+    def f_schedule_sampled_input_consumers(self, I, a, n):
+        I.ctx.write(Loc((self.g.oid, "sampled")), self.gg(I.ctx, "sampled") + 1)
+        if I.ctx.choose(2, "schedule_sampled_input_consumers outcome") == 1:
+            I.throw_from_callee("schedule_sampled_input_consumers")      # scheduling may be refused (graph.cpp)
+        return VOID
+
+    def ctor_handler(self, qt, node):
+        if qt.endswith("MapChildScheduleContext"):
+            def mk(I, args, n):
+                a = [I.ctx.rv(x) for x in args]
+                if len(a) == 1 and isinstance(a[0], SchedCtxVal):
+                    return a[0]
+                ok = z3.BoolVal(len(a) >= 2 and isinstance(a[0], Ptr) and a[0].target is self.st)
+                return SchedCtxVal(ok, a[1] if len(a) >= 2 else z3.IntVal(-9))
+            return mk
+        if qt.endswith("TSOutputView") or qt.endswith("Value") or qt.endswith("ValueView"):
+            return lambda I, args, n: (I.ctx.rv(args[0]) if args else Wild(name="empty_view"))
+        return Kernel.ctor_handler(self, qt, node)
+
+    def global_var(self, I, ref, node):
+        if ref.get("name") == "nullopt":
+            return Wild(name="nullopt")
+        return None
+
+    def post(self, I, ret):
+        ctx = I.ctx
+        s = self.slot
+        started, enull, hasg = self.gg(ctx, "started"), self.gg(ctx, "enull"), self.gg(ctx, "hasg")
+        sc = self.gg(ctx, "sched_ctx")
+        already = z3.And(z3.Not(self.enull0[s]), self.hasg0[s], self.started0[s])
+        ctx.oblige("ensures.the-slot-holds-a-constructed,started-child[C10 a new key gets its own child, started at the cycle time]",
+                   z3.And(z3.Not(enull[s]), hasg[s], started[s], s < self.gg(ctx, "ecap")), kind="post-normal")
+        ctx.oblige("ensures.an-already-running-child-is-left-alone;otherwise-started-once,sampled-once,and-wired-to-this-map's-heap"
+                   "[C10 EntryInv: schedule_context = (this storage, this slot)]", z3.If(already,
+                       z3.And(self.gg(ctx, "starts") == 0, self.gg(ctx, "made") == 0),
+                       z3.And(self.gg(ctx, "starts") == 1, self.gg(ctx, "sampled") == 1, self.gg(ctx, "made") == z3.If(
+                           z3.And(z3.Not(self.enull0[s]), self.hasg0[s]), 0, 1),
+                           z3.BoolVal(isinstance(sc, SchedCtxVal)), (sc.storage_ok if isinstance(sc, SchedCtxVal) else z3.BoolVal(False)),
+                           (sc.slot if isinstance(sc, SchedCtxVal) else z3.IntVal(-9)) == s, self.gg(ctx, "observer_on_this_entry"))),
+                   kind="post-normal")
+        ctx.oblige("ensures.a-new-entry-is-keyed-by-the-key-in-that-slot;other-slots-untouched[C10 isolation]", z3.And(
+            z3.Implies(self.enull0[s], self.gg(ctx, "constructed_key") == s),
+            z3.ForAll([qs], z3.Implies(qs != s, z3.And(started[qs] == self.started0[qs], enull[qs] == self.enull0[qs],
+                                                       hasg[qs] == self.hasg0[qs])))), kind="post-normal")
+
+    def post_exc(self, I, exc):
+        ctx = I.ctx
+        s = self.slot
+        ctx.oblige("raises.a-failed-creation-leaves-no-started-child-in-the-slot,and-a-new-entry-is-destroyed[C14 a failed start "
+                   "stops what was started; C10 failures of one key do not leak]", z3.And(
+                       z3.Not(self.gg(ctx, "started")[s]), z3.Implies(self.enull0[s], self.gg(ctx, "enull")[s]),
+                       z3.ForAll([qs], z3.Implies(qs != s, self.gg(ctx, "started")[qs] == self.started0[qs]))), kind="post-exceptional")
+
+
+KERNELS.append(CreateEntryAtSlot)
